@@ -1,7 +1,7 @@
 (* C03 — trace decisions happen at the documented time.  Statements only; proofs in
    Proofs/CollectorTime.v.  The worker model is Model/Collector.v (processSpan deadlines,
    TakeExpiredTraces with the priority queue's pops as an oracle, the send-reason ladder). *)
-From Refinery Require Import Lib.Base Model.Collector Proofs.CollectorRef Proofs.CollectorTime Gen.GenC01.
+From Refinery Require Import Lib.Base Model.Collector Proofs.CollectorRef Proofs.CollectorTime Proofs.CollectorTicker Gen.GenC01.
 
 (* (a) The deadline.  A trace whose first span arrived at [first] and whose spans arrived at the
    instants of [l] (in order, under config c) has SendBy = the minimum of first + TraceTimeout',
@@ -59,6 +59,14 @@ Theorem C03_due_trace_decided_at_next_tick :
   In t ch.
 Proof. exact tick_decides_due. Qed.
 Print Assumptions C03_due_trace_decided_at_next_tick.
+
+(* ... and the next send tick is less than one SendTicker period away: with ticks at t0 + k*SendTicker,
+   the first tick at or after a deadline d satisfies d <= tick < d + SendTicker. *)
+Theorem C03_next_tick_within_send_ticker : forall t0 st d : Z,
+  0 < st -> t0 <= d ->
+  exists k, 0 <= k /\ d <= t0 + k * st < d + st /\ forall j, 0 <= j < k -> t0 + j * st < d.
+Proof. exact next_tick_within_period. Qed.
+Print Assumptions C03_next_tick_within_send_ticker.
 
 (* the NoDup premise holds in every reachable state *)
 Theorem C03_reachable_buffers_have_distinct_keys :
